@@ -150,6 +150,8 @@ pub struct EfgStyle {
     /// inside the documented 0.1 % tolerance
     pub slack_milli: i64,
     pub comment: bool,
+    /// first chance infoset number (0 is legal and is an infoset like any other)
+    pub chance_base: u64,
 }
 
 impl EfgStyle {
@@ -165,6 +167,7 @@ impl EfgStyle {
             commas: r.coin(0.5),
             slack_milli: if r.coin(0.15) { 1 } else { 0 },
             comment: r.coin(0.3),
+            chance_base: *r.pick(&[0u64, 0, 1, 1, 7]),
         }
     }
     pub fn plain() -> Self {
@@ -179,6 +182,7 @@ impl EfgStyle {
             commas: true,
             slack_milli: 0,
             comment: false,
+            chance_base: 1,
         }
     }
 }
@@ -202,16 +206,18 @@ struct EfgW<'a> {
     info_name_written: [BTreeMap<String, bool>; 2],
     chance_num: BTreeMap<String, u64>,
     next_chance: u64,
+    /// chance infoset numbers start here (Gambit's own files start at 1; 0 is legal too)
+    chance_base: u64,
     next_outcome: u64,
     shared: BTreeMap<(i64, i64), u64>,
     used_slack: i64,
     slack_ok: bool,
     /// outcomes whose payoffs are written somewhere and are a zero-sum increment (a, -a): an
     /// interior node may refer to one of them by number only
-    reusable: Vec<(u64, i64)>,
+    reusable: Vec<(u64, i64, i64)>,
     /// outcomes referred to by number only so far; their payoffs are still to be written at a
     /// later node (definition after use)
-    pending: Vec<(u64, i64)>,
+    pending: Vec<(u64, i64, i64)>,
 }
 
 fn is_2_5_smooth(mut n: u64) -> bool {
@@ -278,16 +284,19 @@ impl EfgW<'_> {
         }
     }
 
-    /// `carry`: what interior outcomes above have already paid to player one (thousandths)
-    fn node(&mut self, n: &MNode, carry: i64) {
+    /// `carry`: what interior outcomes above have already paid to player one and to player two
+    /// (thousandths); interior outcomes need not be zero-sum, the leaves compensate
+    fn node(&mut self, n: &MNode, carry: (i64, i64)) {
         match n {
             MNode::T(x) => {
                 let total_one = milli(*x) + self.st.constant_milli / 2;
-                let one = total_one - carry;
-                let mut two = self.st.constant_milli - total_one + carry;
+                let one = total_one - carry.0;
+                let mut two = self.st.constant_milli - total_one - carry.1;
+                let mut slack_here = false;
                 if self.slack_ok && self.st.slack_milli != 0 && self.r.coin(0.5) {
                     two += self.st.slack_milli;
                     self.used_slack = self.st.slack_milli;
+                    slack_here = true;
                 }
                 let num = if self.st.share_outcomes {
                     let next = &mut self.next_outcome;
@@ -300,9 +309,9 @@ impl EfgW<'_> {
                     self.next_outcome
                 };
                 let name = if self.r.coin(0.3) { format!(" \"o{num}\"") } else { String::new() };
-                if self.st.share_outcomes && one + two == 0 && !self.reusable.iter().any(|(n, _)| *n == num) {
-                    // a zero-sum terminal outcome can be referred to by number at an interior node
-                    self.reusable.push((num, one));
+                if self.st.share_outcomes && !slack_here && one.abs() <= 4000 && two.abs() <= 4000 && !self.reusable.iter().any(|(n, _, _)| *n == num) {
+                    // a terminal outcome can be referred to by number at an interior node
+                    self.reusable.push((num, one, two));
                 }
                 let p = self.payoffs(one, two);
                 let _ = writeln!(self.out, "t \"\" {num}{name} {p}");
@@ -311,14 +320,15 @@ impl EfgW<'_> {
                 let num = match info {
                     Some(i) => {
                         let next = &mut self.next_chance;
+                        let base = self.chance_base;
                         *self.chance_num.entry(i.clone()).or_insert_with(|| {
                             *next += 1;
-                            *next
+                            base + *next - 1
                         })
                     }
                     None => {
                         self.next_chance += 1;
-                        self.next_chance
+                        self.chance_base + self.next_chance - 1
                     }
                 };
                 let weights: Vec<f64> = outs.iter().map(|(_, w, _)| *w).collect();
@@ -332,13 +342,14 @@ impl EfgW<'_> {
                 }
                 let list: Vec<String> = order.iter().map(|i| format!("\"{}\" {}", esc(&outs[*i].0), probs[*i])).collect();
                 let (oc, add) = self.interior();
+                let carry = (carry.0 + add.0, carry.1 + add.1);
                 let iname = match info {
                     Some(i) if self.r.coin(0.5) => format!(" \"{}\"", esc(i)),
                     _ => String::new(),
                 };
                 let _ = writeln!(self.out, "c \"\" {num}{iname} {{ {} }} {oc}", list.join(" "));
                 for i in order {
-                    self.node(&outs[i].2, carry + add);
+                    self.node(&outs[i].2, carry);
                 }
             }
             MNode::P { player, info, acts } => {
@@ -372,41 +383,45 @@ impl EfgW<'_> {
                 }
                 let list: Vec<String> = order.iter().map(|i| format!("\"{}\"", esc(&acts[*i].0))).collect();
                 let (oc, add) = self.interior();
+                let carry = (carry.0 + add.0, carry.1 + add.1);
                 let _ = writeln!(self.out, "p \"\" {} {num}{iname} {{ {} }} {oc}", p + 1, list.join(" "));
                 for i in order {
-                    self.node(&acts[i].1, carry + add);
+                    self.node(&acts[i].1, carry);
                 }
             }
         }
     }
 
-    /// outcome clause of an interior node and what it pays to player one (zero-sum increment)
-    fn interior(&mut self) -> (String, i64) {
+    /// outcome clause of an interior node and what it pays to the two players (an "ante": not
+    /// necessarily zero-sum; the file as a whole stays constant-sum)
+    fn interior(&mut self) -> (String, (i64, i64)) {
         if self.r.coin(self.st.p_interior_payoff) {
             if self.st.share_outcomes {
                 // by number only: the payoffs are written at another node (before or after this one)
                 if !self.reusable.is_empty() && self.r.coin(0.35) {
                     let k = self.r.below(self.reusable.len() as u64) as usize;
-                    let (num, a) = self.reusable[k];
-                    return (format!("{num}"), a);
+                    let (num, a, b) = self.reusable[k];
+                    return (format!("{num}"), (a, b));
                 }
                 if !self.pending.is_empty() && self.r.coin(0.6) {
-                    let (num, a) = self.pending.remove(0);
-                    self.reusable.push((num, a));
-                    return (format!("{num} {}", self.payoffs(a, -a)), a);
+                    let (num, a, b) = self.pending.remove(0);
+                    self.reusable.push((num, a, b));
+                    return (format!("{num} {}", self.payoffs(a, b)), (a, b));
                 }
             }
             let a = (self.r.below(17) as i64 - 8) * 125;
+            // a third of the interior outcomes are not zero-sum (one player pays an ante)
+            let b = if self.r.coin(0.33) { -a + *self.r.pick(&[-1000i64, -250, 125, 500, 1000]) } else { -a };
             self.next_outcome += 1;
             let num = self.next_outcome;
             if self.st.share_outcomes && self.r.coin(0.25) {
-                self.pending.push((num, a));
-                return (format!("{num}@@P{num}@@"), a);
+                self.pending.push((num, a, b));
+                return (format!("{num}@@P{num}@@"), (a, b));
             }
-            self.reusable.push((num, a));
-            (format!("{num} {}", self.payoffs(a, -a)), a)
+            self.reusable.push((num, a, b));
+            (format!("{num} {}", self.payoffs(a, b)), (a, b))
         } else {
-            ("0".to_string(), 0)
+            ("0".to_string(), (0, 0))
         }
     }
 }
@@ -425,6 +440,7 @@ pub fn to_efg(model: &MNode, r: &mut Rng, st: &EfgStyle) -> EfgWritten {
         info_name_written: Default::default(),
         chance_num: BTreeMap::new(),
         next_chance: 0,
+        chance_base: st.chance_base,
         next_outcome: 0,
         shared: BTreeMap::new(),
         used_slack: 0,
@@ -436,12 +452,12 @@ pub fn to_efg(model: &MNode, r: &mut Rng, st: &EfgStyle) -> EfgWritten {
     if st.comment {
         let _ = writeln!(w.out, "\"a comment\"");
     }
-    w.node(model, 0);
+    w.node(model, (0, 0));
     // outcomes used by number whose payoffs were never written later: write them at the use
     let pending = std::mem::take(&mut w.pending);
-    for (num, a) in pending {
+    for (num, a, b) in pending {
         let marker = format!("@@P{num}@@");
-        let pay = format!(" {}", w.payoffs(a, -a));
+        let pay = format!(" {}", w.payoffs(a, b));
         w.out = w.out.replacen(&marker, &pay, 1);
     }
     while let Some(i) = w.out.find("@@P") {
